@@ -72,6 +72,8 @@ def _case(draw, kind):
                 inplace=draw(st.booleans()),          # the same dict object, edited in place between the calls (system.constants['k'] = ...)
                 stiff=(draw(st.sampled_from([1.0, 1.0, 1.0, 10.0, 40.0])) if not linear else draw(st.sampled_from([1.0, 10.0, 40.0, 100.0, 400.0]))) if kind == "implicit" else 1.0,
                 linear=linear,
+                jump_mode=draw(st.sampled_from(["full", "full", "state_one_component", "state_one_component", "state_all_components", "time_only"])),
+                jump_index=draw(st.integers(0, 5)),
                 jump=[draw(st.booleans()) for _ in range(2)], jump_y=draw(PR.state(rhs["shape"])), jump_t=draw(st.sampled_from([0.5, -1.25, 7.0])))
 
 
@@ -157,9 +159,10 @@ def check(case):
             next_dt, (dT, dY) = integ(rhs, t, y, cdict, h)
         except FailedToMeetTolerances as e:
             labels.append("reported_failure")
-            if case.get("linear"):
+            if case.get("linear") and M.family(cls) == "implicit_fixed" and dtname != "float32":
                 # linear stage system (I - h A (x) J) K = rhs: unless it is close to singular, failing to solve it means the
-                # solver was handed a wrong Jacobian
+                # solver was handed a wrong Jacobian. (Only methods without an error estimator: an embedded pair also raises
+                # this when its error test cannot be met - RadauIIA19 in float32 - which says nothing about the stage solve.)
                 Atab = M.tableau(name)[1]
                 Jf = np.asarray(f.jac(float(t), np.asarray(y, dtype=np.float64)), dtype=np.float64).reshape(f.n, f.n)
                 Sm = np.eye(Atab.shape[0] * f.n) - float(h) * np.kron(Atab, Jf)
@@ -292,9 +295,19 @@ def check(case):
         t = dt(t + dT)
         if case.get("jump") and step_no < len(case["jump"]) and case["jump"][step_no]:
             # ... or from an unrelated point, on the same integrator object
-            y = np.asarray(case["jump_y"], dtype=dt).reshape(shape)
-            t = dt(case["jump_t"])
-            labels.append("object_reused_at_unrelated_point")
+            mode = case.get("jump_mode", "full")
+            if mode == "full":
+                y = np.asarray(case["jump_y"], dtype=dt).reshape(shape)
+                t = dt(case["jump_t"])
+            elif mode == "state_one_component":
+                # same time, the state edited in ONE component only (an event handler resetting a position, a Jacobian probe)
+                y = y.copy()
+                y.reshape(-1)[case.get("jump_index", 0) % y.size] += dt(0.375)
+            elif mode == "state_all_components":
+                y = (y + np.asarray(case["jump_y"], dtype=dt).reshape(shape) + dt(0.125)).astype(dt)
+            else:       # "time_only"
+                t = dt(case["jump_t"])
+            labels.append("object_reused_at_unrelated_point:" + mode)
         nd = float(next_dt)
         if np.isfinite(nd) and nd != 0 and np.sign(nd) == np.sign(float(h)):
             h = dt(np.sign(nd) * min(abs(nd), 2.0))
